@@ -74,7 +74,15 @@ def derive_pair(rng, sigma):
         return r, ("union", r, r), "eq"
     if k < 0.17:
         return ("union", ("eps",), r), ("opt", r), "eq"
-    if k < 0.22:
+    if k < 0.25:
+        # a repetition written directly after another postfix operator applies to the whole operand before it
+        return rng.choice([
+            (("rep", ("opt", r), 2, 2), ("union", ("eps",), ("union", r, ("cat", r, r))), "eq"),
+            (("rep", ("star", r), 2, 2), ("star", r), "eq"),
+            (("rep", ("plus", r), 1, 2), ("plus", r), "eq"),
+            (("opt", ("rep", r, 2, 2)), ("union", ("eps",), ("cat", r, r)), "eq"),
+            (("star", ("rep", r, 1, 2)), ("star", r), "eq")])
+    if k < 0.29:
         return ("star", ("star", r)), ("star", r), "eq"
     if k < 0.32:
         return ("plus", ("opt", r)), ("rep", r, 0, None), "eq"
